@@ -69,7 +69,7 @@ struct UnsubCall {
 }
 
 /// `k` in 0..100; the mix depends on whether the subscription is still pending
-fn draw_cmd(k: u32, pending: bool, payload: &mut u64) -> SubCmd {
+fn draw_cmd(k: u32, pending: bool, payload: &mut u64, clogged: bool) -> SubCmd {
 	*payload += 1;
 	if pending {
 		return match k {
@@ -82,6 +82,8 @@ fn draw_cmd(k: u32, pending: bool, payload: &mut u64) -> SubCmd {
 		};
 	}
 	match k {
+		// under back-pressure a send with a deadline is what times out (and is retried with the message it returns)
+		20..=44 if clogged => SubCmd::SendTimeout(*payload, 5),
 		0..=44 => SubCmd::Send(*payload),
 		45..=54 => SubCmd::TrySend(*payload),
 		55..=59 => SubCmd::SendTimeout(*payload, 5),
@@ -110,6 +112,9 @@ async fn scenario(prop: u32) {
 	let cap = *rt::pick("cap", &[1024u32, 0, 1, 2, 3]);
 	let n_conns = rt::draw_range("n_conns", 1, 2) as usize;
 	let collide = n_conns == 2 && rt::chance("collide", 1, 3);
+	// reuse mode: an id that was freed by a successful unsubscribe is dealt again to the next subscription on that
+	// connection (an id provider is free to do that)
+	let reuse = !collide && rt::chance("reuse_ids", 1, 4);
 	let clogged_mode = rt::chance("clogged_mode", 1, 5);
 	let stream_cap = if clogged_mode { 64 } else { *rt::pick("stream_cap", &[0usize, 0, 64, 300]) };
 	let buf_cap = if clogged_mode { *rt::pick("buf_cap_clogged", &[1u32, 2]) } else { buf_cap };
@@ -137,6 +142,19 @@ async fn scenario(prop: u32) {
 			_ => Step::Settle,
 		});
 	}
+	if reuse {
+		// every unsubscribe of an own id is followed by a pause and a new subscribe on that connection, which is dealt
+		// the freed id
+		let mut i = 0;
+		while i < steps.len() {
+			if let Step::Unsubscribe(c, 0) = steps[i] {
+				steps.insert(i + 1, Step::Settle);
+				steps.insert(i + 2, Step::Subscribe(c));
+				i += 2;
+			}
+			i += 1;
+		}
+	}
 	if clogged_mode {
 		// the peer of connection 0 stops reading and the write path fills up before anything else happens
 		steps.insert(0, Step::PauseReader(0));
@@ -154,13 +172,14 @@ async fn scenario(prop: u32) {
 		let at = (at as usize - 1).min(steps.len());
 		steps.insert(at, f);
 	}
-	rt::event("plan", format!("prop=C{prop:02} entry={entry:?} buf_cap={buf_cap} cap={cap} conns={n_conns} collide={collide} frag={frag:?} steps={steps:?}"));
+	rt::event("plan", format!("prop=C{prop:02} entry={entry:?} buf_cap={buf_cap} cap={cap} conns={n_conns} collide={collide} reuse={reuse} frag={frag:?} steps={steps:?}"));
 
 	let mut world = World::new(SrvCfg { entry, buf_cap, frag, max_subs: cap, auto_sub: false, ..Default::default() });
 	world.start().await;
 	// collide mode: the j-th subscription of every connection is dealt the id 500+j, so that the same id is live on
 	// two connections at once (the harness then issues one subscribe at a time)
 	let mut dealt: Vec<u64> = vec![0; n_conns];
+	let mut redealt: Vec<String> = Vec::new();
 	// ---------------- connections ----------------
 	let mut conns: Vec<Conn> = Vec::new();
 	for ci in 0..n_conns {
@@ -212,6 +231,7 @@ async fn scenario(prop: u32) {
 		k += 1;
 		match step {
 			Step::Subscribe(c) => {
+				let conn_frames = conns[*c].frames.clone();
 				if let Some(tx) = conns[*c].tx.as_mut() {
 					if collide {
 						tokio::time::sleep(Duration::from_millis(5)).await;
@@ -219,13 +239,33 @@ async fn scenario(prop: u32) {
 						world.ids.queue.lock().unwrap().push(SubscriptionId::Num(500 + dealt[*c]));
 						dealt[*c] += 1;
 					}
+					let mut reused = false;
+					if reuse {
+						// an id whose unsubscribe the peer has seen answered with true, not dealt again yet
+						let freed: Option<String> = unsub_calls.iter().filter(|u: &&UnsubCall| u.conn == *c && !redealt.contains(&u.target)).find(|u| conn_frames.lock().unwrap().iter().any(|f| f.v.get("id").and_then(|i| i.as_str()) == Some(u.call_id.as_str()) && f.v.get("result") == Some(&Value::Bool(true)))).map(|u| u.target.clone());
+						if let Some(t) = freed {
+							let id = match serde_json::from_str::<Value>(&t) {
+								Ok(Value::Number(n)) => n.as_u64().map(SubscriptionId::Num),
+								Ok(Value::String(s)) => Some(SubscriptionId::Str(s.into())),
+								_ => None,
+							};
+							if let Some(id) = id {
+								tokio::time::sleep(Duration::from_millis(5)).await;
+								world.ids.queue.lock().unwrap().clear();
+								world.ids.queue.lock().unwrap().push(id);
+								redealt.push(t);
+								reused = true;
+								rt::probe("sub_id_dealt_again");
+							}
+						}
+					}
 					let call_id = format!("s{k}");
 					let st = rt::event("dir-subscribe", format!("c{c} {call_id}"));
 					let msg = format!("{{\"jsonrpc\":\"2.0\",\"id\":\"{call_id}\",\"method\":\"sub\",\"params\":[{k}]}}");
 					if matches!(tokio::time::timeout(Duration::from_millis(200), world::ws_send(tx, msg.as_bytes(), false)).await, Ok(Ok(()))) {
 						sub_calls.push(SubCall { conn: *c, call_id, sent_stamp: st });
 					}
-					if collide {
+					if collide || reused {
 						tokio::time::sleep(Duration::from_millis(5)).await;
 					}
 				}
@@ -235,7 +275,7 @@ async fn scenario(prop: u32) {
 				if !reg.is_empty() {
 					let ctl = &reg[which % reg.len()];
 					let pending = !ctl.events.lock().unwrap().iter().any(|e| e.what == "accept");
-					let _ = ctl.cmd.send(draw_cmd(*cmd, pending, &mut payload));
+					let _ = ctl.cmd.send(draw_cmd(*cmd, pending, &mut payload, clogged_mode));
 				}
 			}
 			Step::Unsubscribe(c, kind) => {
@@ -402,6 +442,20 @@ fn accept_ok(s: &SubCtl) -> Option<u64> {
 fn check_c04(v: &View) {
 	const P: &str = "C04";
 	let mut nontrivial = false;
+	// payloads are unique over the whole run: payload -> the subscription whose handler sent it
+	let mut by_payload: BTreeMap<u64, usize> = BTreeMap::new();
+	for (si, s) in v.reg.iter().enumerate() {
+		for e in s.events.lock().unwrap().iter().filter(|e| matches!(e.what.as_str(), "send" | "try_send" | "send_timeout")) {
+			if let Some(p) = e.payload {
+				by_payload.insert(p, si);
+			}
+		}
+	}
+	// the response that accepted a subscription: by the id of its subscribe call (subscription ids may be dealt again)
+	let accept_frame_of = |frames: &'_ [Frame], s: &SubCtl| -> Option<usize> {
+		let call_id = format!("s{}", subscribe_k(&s.params)?);
+		frames.iter().find(|g| g.v.get("id").and_then(|i| i.as_str()) == Some(call_id.as_str()) && g.v.get("result").map(|r| r.to_string()) == Some(s.sub_id.clone())).map(|g| g.idx)
+	};
 	for (ci, frames) in v.frames.iter().enumerate() {
 		// subscriptions of this connection
 		let subs: Vec<&Arc<SubCtl>> = v.reg.iter().filter(|s| v.conn_of(s) == ci).collect();
@@ -409,45 +463,66 @@ fn check_c04(v: &View) {
 		for f in frames.iter().filter(|f| f.v.get("method").is_some() && f.v.get("id").is_none()) {
 			let sid = f.v["params"]["subscription"].to_string();
 			let method_ok = f.v["method"] == "notif";
-			// (several subscriptions may carry the same id one after the other only if ids are re-dealt: not on one connection here)
-			let owner = subs.iter().find(|s| s.sub_id == sid && accept_ok(s).is_some());
-			match owner {
-				None => {
-					let elsewhere = v.reg.iter().any(|s| s.sub_id == sid && v.conn_of(s) != ci);
-					rt::violate(P, "foreign-notification", if elsewhere { "other-connection" } else { "never-accepted" }, format!("connection {ci} received {} for a subscription that was not accepted on it", f.v));
-				}
-				Some(s) => {
-					if !method_ok {
-						rt::violate(P, "wrong-method-name", "notif", format!("notification {} does not carry the subscription's notification method", f.v));
+			// whose is it? an item is attributed by its payload, a closing notification by its id
+			let owners: Vec<&Arc<SubCtl>> = match f.v["params"].get("result") {
+				Some(r) => match r.as_u64().and_then(|p| by_payload.get(&p)) {
+					Some(si) => {
+						let s = &v.reg[*si];
+						if v.conn_of(s) != ci {
+							rt::violate(P, "foreign-notification", "other-connection", format!("connection {ci} received {}, an item sent by a handler of connection {}", f.v, v.conn_of(s)));
+							continue;
+						}
+						if s.sub_id != sid {
+							rt::violate(P, "wrong-subscription-id", "item", format!("item {} was sent by the handler of subscription {} but carries id {sid}", f.v, s.sub_id));
+							continue;
+						}
+						vec![s]
 					}
-					// after the response that accepted it
-					let accept_frame = frames.iter().find(|g| g.v.get("result").map(|r| r.to_string()) == Some(s.sub_id.clone()) && g.v.get("id").is_some());
-					match accept_frame {
-						Some(a) if a.idx < f.idx => {}
-						Some(a) => rt::violate(P, "notification-before-accept", "order", format!("notification {} (frame {}) precedes the response that accepted the subscription (frame {})", f.v, f.idx, a.idx)),
-						None => rt::violate(P, "notification-before-accept", "no-accept-frame", format!("notification {} but no accept response for {} was received before the end", f.v, s.sub_id)),
+					None => {
+						rt::violate(P, "wrong-notifications", "unknown-payload", format!("connection {ci} received {}, whose payload no handler sent", f.v));
+						continue;
 					}
-				}
+				},
+				None => subs.iter().filter(|s| s.sub_id == sid).copied().collect(),
+			};
+			let accepted: Vec<&&Arc<SubCtl>> = owners.iter().filter(|s| accept_ok(s).is_some()).collect();
+			if accepted.is_empty() {
+				let elsewhere = v.reg.iter().any(|s| s.sub_id == sid && v.conn_of(s) != ci);
+				rt::violate(P, "foreign-notification", if elsewhere && owners.is_empty() { "other-connection" } else { "never-accepted" }, format!("connection {ci} received {} for a subscription that was not accepted on it", f.v));
+				continue;
+			}
+			if !method_ok {
+				rt::violate(P, "wrong-method-name", "notif", format!("notification {} does not carry the subscription's notification method", f.v));
+			}
+			// after the response that accepted it (the earliest one, if the id was dealt more than once)
+			match accepted.iter().filter_map(|s| accept_frame_of(frames, s)).min() {
+				Some(a) if a < f.idx => {}
+				Some(a) => rt::violate(P, "notification-before-accept", "order", format!("notification {} (frame {}) precedes the response that accepted the subscription (frame {a})", f.v, f.idx)),
+				None => rt::violate(P, "notification-before-accept", "no-accept-frame", format!("notification {} but no accept response for {sid} was received before the end", f.v)),
 			}
 		}
 		for s in &subs {
 			let evs = s.events.lock().unwrap().clone();
 			let accepted = accept_ok(s);
-			// delivered payloads in wire order
+			// delivered payloads in wire order (attributed by payload)
+			let my_index = v.reg.iter().position(|x| Arc::ptr_eq(x, s));
 			let delivered: Vec<(u64, u64)> = frames
 				.iter()
-				.filter(|f| f.v.get("id").is_none() && f.v["params"]["subscription"].to_string() == s.sub_id && f.v["params"].get("result").is_some())
+				.filter(|f| f.v.get("id").is_none() && f.v.get("method").is_some() && f.v["params"].get("result").is_some())
 				.filter_map(|f| f.v["params"]["result"].as_u64().map(|p| (f.stamp, p)))
+				.filter(|(_, p)| by_payload.get(p).copied() == my_index)
 				.collect();
 			let closings: Vec<&Frame> = frames.iter().filter(|f| f.v.get("id").is_none() && f.v["params"]["subscription"].to_string() == s.sub_id && f.v["params"].get("error").is_some()).collect();
+			// accepted subscriptions of this connection that carried the same id (one after the other)
+			let same_id = subs.iter().filter(|x| x.sub_id == s.sub_id && accept_ok(x).is_some()).count();
 			if accepted.is_none() {
-				if !delivered.is_empty() || !closings.is_empty() {
+				if !delivered.is_empty() || (!closings.is_empty() && same_id == 0) {
 					rt::violate(P, "notification-without-accept", "rejected-or-pending", format!("subscription {} was never accepted but frames {:?} / {} closing notifications were sent for it", s.sub_id, delivered, closings.len()));
 				}
 				continue;
 			}
-			if closings.len() > 1 {
-				rt::violate(P, "closing-notification-twice", "count", format!("subscription {}: {} closing notifications", s.sub_id, closings.len()));
+			if closings.len() > same_id {
+				rt::violate(P, "closing-notification-twice", "count", format!("subscription {}: {} closing notifications for {same_id} accepted subscription(s) with that id", s.sub_id, closings.len()));
 			}
 			let sends: Vec<&world::SubEvent> = evs.iter().filter(|e| matches!(e.what.as_str(), "send" | "try_send" | "send_timeout")).collect();
 			let ok_payloads: Vec<u64> = sends.iter().filter(|e| e.ok).filter_map(|e| e.payload).collect();
@@ -468,7 +543,7 @@ fn check_c04(v: &View) {
 			let mut close_at: Option<(u64, &str)> = None;
 			for u in v.unsub_calls.iter().filter(|u| u.conn == ci && u.target == s.sub_id) {
 				if let Some(e) = v.unsub_end(ci, &u.call_id) {
-					if e.response.as_deref().is_some_and(|r| r.contains("\"result\":true")) && close_at.is_none_or(|c| e.stamp < c.0) {
+					if e.response.as_deref().is_some_and(|r| r.contains("\"result\":true")) && accepted.is_some_and(|a| e.stamp > a) && close_at.is_none_or(|c| e.stamp < c.0) {
 						close_at = Some((e.stamp, "unsubscribe"));
 					}
 				}
@@ -588,7 +663,8 @@ fn check_c06(v: &View) {
 				why = "handler already gone".into();
 				continue;
 			}
-			let unsubscribed_before = v.unsub_calls.iter().filter(|o| o.conn == u.conn && o.target == u.target && o.call_id != u.call_id).any(|o| v.unsub_end(o.conn, &o.call_id).is_some_and(|e| e.stamp < at && e.response.as_deref().is_some_and(|r| r.contains("\"result\":true"))));
+			// (an unsubscribe that ended before this subscription was accepted concerned an earlier holder of the id)
+			let unsubscribed_before = v.unsub_calls.iter().filter(|o| o.conn == u.conn && o.target == u.target && o.call_id != u.call_id).any(|o| v.unsub_end(o.conn, &o.call_id).is_some_and(|e| e.stamp < at && e.stamp > acc && e.response.as_deref().is_some_and(|r| r.contains("\"result\":true"))));
 			if unsubscribed_before {
 				why = "already unsubscribed".into();
 				continue;
@@ -631,7 +707,7 @@ fn check_c06(v: &View) {
 		let evs = s.events.lock().unwrap();
 		for e in evs.iter().filter(|e| (e.what == "is_closed" || e.what == "closed-future") && e.ok) {
 			// closed reported: is there a cause before e.invoked?
-			let unsub = v.unsub_calls.iter().filter(|u| u.conn == ci && u.target == s.sub_id).any(|u| v.unsub_end(ci, &u.call_id).is_some_and(|x| x.stamp < e.returned && x.response.as_deref().is_some_and(|r| r.contains("\"result\":true"))));
+			let unsub = v.unsub_calls.iter().filter(|u| u.conn == ci && u.target == s.sub_id).any(|u| v.unsub_end(ci, &u.call_id).is_some_and(|x| x.stamp < e.returned && x.stamp > acc && x.response.as_deref().is_some_and(|r| r.contains("\"result\":true"))));
 			let conn_ending = v.peer_closed[ci].is_some_and(|p| p < e.returned) || v.stop_stamp.is_some_and(|p| p < e.returned) || v.conn_gone[ci].is_some_and(|p| p < e.returned);
 			if !unsub && !conn_ending && acc < e.invoked {
 				let clone_dropped = evs.iter().any(|x| x.what == "drop-clone" && x.returned < e.invoked);
